@@ -25,8 +25,17 @@ import (
 //   - `racejob -seed S -tier T`: regenerates the job sets of this run (same seed, same
 //     generator: the digest of the histories is checked), runs every job set with one
 //     goroutine and one World per job and exits 66 with the report on the first race.
+//   - `racefirst` (harness/racefirst, imports only package jen): FIRST-USE initialisation.
+//     racejob imports package props (whose init functions already render Files) and runs a
+//     sequential reference first, so anything jennifer builds lazily on first use is complete
+//     before its goroutines start.  racefirst is a second binary built the same way in which
+//     the very first use of the library in the process is made by 16 goroutines behind a
+//     barrier (each building and rendering a File of its own through every code path that
+//     could initialise something lazily) and the expected outputs are computed only
+//     afterwards; it is run in 5 (thorough 25) fresh processes under GOMAXPROCS 2..16, after
+//     its own positive control (`racefirst -control`: a lazily built map of the program).
 // The result is stored in the Meta of one dedicated case (Stream "race") whose oracle
-// decides on it.  VERIF_RACEJOB=<binary> skips the build (a prebuilt -race binary);
+// decides on it.  VERIF_RACEFIRST=<binary> is to racefirst what VERIF_RACEJOB is to racejob.  VERIF_RACEJOB=<binary> skips the build (a prebuilt -race binary);
 // VERIF_HARNESS_DIR overrides where the sources of the harness module are looked for.
 // If the binary cannot be built (no gcc, no cgo) the case falls back to many more goroutine
 // runs without the detector, is tagged race-detector=UNAVAILABLE and is not NonTrivial;
@@ -43,6 +52,20 @@ type C09RaceResult struct {
 	Out         string
 	RunS        float64
 	WantDigest  string
+	// first-use runs (racefirst); FirstWanted = 0: not attempted (hand-made results)
+	FirstWanted      int
+	FirstBuildErr    string
+	FirstControlExit int
+	FirstControlOut  string
+	First            []C09FirstRun
+	FirstS           float64
+}
+
+// C09FirstRun is one fresh process of racefirst.
+type C09FirstRun struct {
+	Procs int
+	Exit  int
+	Out   string
 }
 
 const c09RaceExit = 66
@@ -104,25 +127,80 @@ func c09RunCmd(timeout time.Duration, dir string, env []string, name string, arg
 
 // c09BuildArgs: the race build; VERIF_MODFILE (set by ./check when the repository under test
 // is not /repo) selects an alternative go.mod whose replace directive points there.
-func c09BuildArgs(bin string) []string {
+func c09BuildArgs(bin string) []string { return c09BuildArgsOf(bin, "./racejob") }
+
+func c09BuildArgsOf(bin, pkg string) []string {
 	args := []string{"build", "-race", "-tags", "verif"}
 	if mf := os.Getenv("VERIF_MODFILE"); mf != "" {
 		args = append(args, "-modfile="+mf)
 	}
-	return append(args, "-o", bin, "./racejob")
+	return append(args, "-o", bin, pkg)
+}
+
+// c09FirstProcs: GOMAXPROCS of the i-th racefirst process (2..16; with 1 the goroutines run
+// one after the other and the detector's bounded per-address history usually has lost the
+// initialising write by the time the next goroutine reads).
+func c09FirstProcs(i int) int {
+	return []int{2, 16, 4, 8, 3, 11, 6, 13, 5, 9, 16, 2, 7, 12, 10, 14, 15}[i%17]
+}
+
+// c09FirstRuns builds racefirst next to racejob (same build) and runs control + n fresh
+// processes, four at a time.
+func c09FirstRuns(res *C09RaceResult, tmp string, n int) {
+	res.FirstWanted = n
+	start := time.Now()
+	defer func() { res.FirstS = time.Since(start).Seconds() }()
+	bin := os.Getenv("VERIF_RACEFIRST")
+	if bin == "" {
+		if _, err := os.Stat(filepath.Join(c09HarnessDir(), "racefirst", "main.go")); err != nil {
+			res.FirstBuildErr = "harness/racefirst not found: " + err.Error()
+			return
+		}
+		bin = filepath.Join(tmp, "racefirst")
+		code, out := c09RunCmd(15*time.Minute, c09HarnessDir(),
+			c09Env("CGO_ENABLED=1", "GOFLAGS=-mod=mod", "GOPROXY=off", "GOSUMDB=off", "GOTOOLCHAIN=local"),
+			"go", c09BuildArgsOf(bin, "./racefirst")...)
+		if code != 0 {
+			res.FirstBuildErr = fmt.Sprintf("go build -race ./racefirst failed (exit %d): %s", code, out)
+			return
+		}
+	}
+	env := c09Env(c09Gorace())
+	res.FirstControlExit, res.FirstControlOut = c09RunCmd(5*time.Minute, "", env, bin, "-control", "-procs", "4")
+	res.First = make([]C09FirstRun, n)
+	var wg sync.WaitGroup
+	sem := make(chan struct{}, 4)
+	for i := 0; i < n; i++ {
+		wg.Add(1)
+		go func(i int) {
+			defer wg.Done()
+			sem <- struct{}{}
+			defer func() { <-sem }()
+			p := c09FirstProcs(i)
+			code, out := c09RunCmd(10*time.Minute, "", env, bin, "-procs", fmt.Sprint(p))
+			res.First[i] = C09FirstRun{Procs: p, Exit: code, Out: out}
+		}(i)
+	}
+	wg.Wait()
+}
+
+// c09Gorace: exit 66 with the report on the first race; no sleep at exit (both binaries have
+// joined all their goroutines when they exit).
+func c09Gorace() string {
+	return "GORACE=halt_on_error=1 atexit_sleep_ms=0 exitcode=" + fmt.Sprint(c09RaceExit)
 }
 
 // c09RaceRun builds racejob (unless VERIF_RACEJOB names one) and runs control + job sets.
 func c09RaceRun(seed int64, t string, digest string) *C09RaceResult {
 	res := &C09RaceResult{WantDigest: digest}
 	bin := os.Getenv("VERIF_RACEJOB")
+	tmp, err := os.MkdirTemp("", "verif-c09-race-")
+	if err != nil {
+		res.BuildErr = err.Error()
+		return res
+	}
+	defer os.RemoveAll(tmp)
 	if bin == "" {
-		tmp, err := os.MkdirTemp("", "verif-c09-race-")
-		if err != nil {
-			res.BuildErr = err.Error()
-			return res
-		}
-		defer os.RemoveAll(tmp)
 		bin = filepath.Join(tmp, "racejob")
 		start := time.Now()
 		code, out := c09RunCmd(15*time.Minute, c09HarnessDir(),
@@ -135,11 +213,12 @@ func c09RaceRun(seed int64, t string, digest string) *C09RaceResult {
 		}
 	}
 	res.Built = true
-	env := c09Env("GORACE=halt_on_error=1 exitcode=" + fmt.Sprint(c09RaceExit))
+	env := c09Env(c09Gorace())
 	res.ControlExit, res.ControlOut = c09RunCmd(5*time.Minute, "", env, bin, "-control")
 	start := time.Now()
 	res.Exit, res.Out = c09RunCmd(60*time.Minute, "", env, bin, "-seed", fmt.Sprint(seed), "-tier", t, "-digest", digest)
 	res.RunS = time.Since(start).Seconds()
+	c09FirstRuns(res, tmp, tier(t, 5, 25))
 	return res
 }
 
@@ -159,8 +238,16 @@ func c09RaceCase(seed int64, t string, sets []*Case) *Case {
 	if len(sets) > 0 {
 		h = sets[0].Hist
 	}
+	tags := []string{tag, fmt.Sprintf("race-jobsets=%d", len(sets))}
+	if res.Built {
+		if res.FirstBuildErr == "" && res.FirstControlExit == c09RaceExit {
+			tags = append(tags, fmt.Sprintf("race-first-use-processes=%d", len(res.First)))
+		} else {
+			tags = append(tags, "race-first-use=UNAVAILABLE")
+		}
+	}
 	return &Case{Hist: h, Stream: "race", NonTrivial: res.Built && res.ControlExit == c09RaceExit,
-		Tags: []string{tag, fmt.Sprintf("race-jobsets=%d", len(sets))},
+		Tags: tags,
 		Meta: map[string]interface{}{"race": res, "sets": sets, "seed": seed, "tier": t}}
 }
 
@@ -170,6 +257,34 @@ func c09Head(s string, lines int) string {
 		ls = append(ls[:lines], "...")
 	}
 	return strings.Join(ls, "\n")
+}
+
+// c09Report condenses a race report: of every section (the two conflicting accesses, the
+// goroutine creations) the heading and the first frames innermost stack frames.
+func c09Report(s string, frames int) string {
+	var out []string
+	left := 0
+	for _, l := range strings.Split(strings.TrimSpace(s), "\n") {
+		switch {
+		case strings.HasPrefix(l, "=================="):
+			if len(out) > 0 {
+				return strings.Join(out, "\n")
+			}
+		case l != "" && !strings.HasPrefix(l, " "):
+			out = append(out, l)
+			left = 2 * frames // function line + file line
+		case left > 0 && l != "":
+			out = append(out, l)
+			left--
+			if left == 0 {
+				out = append(out, "  ...")
+			}
+		}
+		if len(out) > 80 {
+			break
+		}
+	}
+	return strings.Join(out, "\n")
 }
 
 // c09RaceOracle fails if the race detector reported a race while the job sets ran
@@ -202,6 +317,49 @@ func c09RaceOracle(c *Case) string {
 	}
 	if !strings.Contains(res.Out, "digest "+res.WantDigest) {
 		return "racejob did not run the job sets of this invocation:\n" + c09Head(res.Out, 5)
+	}
+	return c09FirstOracle(res)
+}
+
+// c09FirstOracle decides on the first-use runs: every one of the FirstWanted fresh
+// processes must have ended with exit 0 and its ok line; a race report, differing outputs
+// (exit 3), a crash of the runtime ("fatal error: concurrent map writes", exit 2) or
+// anything else fails, quoting what the process printed.
+func c09FirstOracle(res *C09RaceResult) string {
+	if res.FirstWanted == 0 {
+		return ""
+	}
+	if res.FirstBuildErr != "" {
+		return "the first-use race binary (harness/racefirst) cannot be built although racejob could: " + c09Head(res.FirstBuildErr, 20)
+	}
+	if res.FirstControlExit != c09RaceExit || !strings.Contains(res.FirstControlOut, "DATA RACE") {
+		return fmt.Sprintf("first use, positive control: the race detector did not report the unsynchronised lazily initialised map of racefirst -control (exit %d):\n%s", res.FirstControlExit, c09Head(res.FirstControlOut, 12))
+	}
+	if len(res.First) < res.FirstWanted {
+		return fmt.Sprintf("first use: only %d of %d racefirst processes ran", len(res.First), res.FirstWanted)
+	}
+	for i, r := range res.First {
+		where := fmt.Sprintf("first use of the library by 16 goroutines at once (racefirst process %d of %d, GOMAXPROCS %d)", i+1, len(res.First), r.Procs)
+		switch {
+		case r.Exit == c09RaceExit || strings.Contains(r.Out, "WARNING: DATA RACE"):
+			out := r.Out
+			if j := strings.Index(out, "WARNING: DATA RACE"); j >= 0 {
+				out = out[j:]
+			}
+			return where + ": the race detector reports a data race between independent build+render jobs:\n" + c09Report(out, 5)
+		case strings.Contains(r.Out, "fatal error:") || strings.Contains(r.Out, "concurrent map"):
+			out := r.Out
+			if j := strings.Index(out, "fatal error:"); j >= 0 {
+				out = out[j:]
+			}
+			return fmt.Sprintf("%s: the process crashed (exit %d):\n%s", where, r.Exit, c09Head(out, 30))
+		case r.Exit == 3:
+			return where + ": outputs differ from the same builds run sequentially afterwards:\n" + c09Head(r.Out, 12)
+		case r.Exit != 0:
+			return fmt.Sprintf("%s: racefirst failed (exit %d):\n%s", where, r.Exit, c09Head(r.Out, 30))
+		case !strings.Contains(r.Out, "ok racefirst goroutines=16"):
+			return where + ": racefirst exited 0 without its ok line:\n" + c09Head(r.Out, 12)
+		}
 	}
 	return ""
 }
